@@ -171,7 +171,7 @@ def run(ctx):
                 bad[i] = ('bytes', b'\x01' * (f.length + 1))
                 kind = 'array-wrong-length'
             elif U.kind(f) is M.Bitfield:
-                bad[i] = ('bits', [2 ** b._width + 1 for b in f._bits])
+                bad[i] = ('bits', [2 ** b.width + 1 for b in U.P.bits_of(U.inner(f), M)])
                 kind = 'bit-too-large'
             else:
                 bad[i] = ('none',)
